@@ -266,11 +266,62 @@ std::string op_record_more(std::string const &_op, line_t const &L)
   throw bad_op{};
 }
 
+// record::set<Label>(record, value): the other elements in label order, then the element that was set
+template <typename T, typename Set, typename... Ls>
+std::string do_recset(line_t const &L)
+{
+  auto r{mk_rec<T, Ls...>(L.args[0])};
+  mark<T, Ls...>(r);
+  T x{L.args[1].ids[0]};
+  c05::mark(x);
+  g_log.clear();
+  with_cat<T::copyable>(
+      L.cat(1),
+      x,
+      [&r](auto &&v)
+      {
+        fcppt::record::set<Set>(r, FWD(v));
+        return 0;
+      });
+  event_log const log{g_log};
+  slots_t s, sx;
+  ((std::is_same_v<Ls, Set> ? void() : s.add(fcppt::record::get<Ls>(r))), ...);
+  s.add(fcppt::record::get<Set>(r));
+  sx.add(x);
+  return finish("-", "-", {s.str(), sx.str()}, log);
+}
+
+template <typename T>
+std::string op_recset(line_t const &L)
+{
+  need(L.args.size() == 2 && L.cat(0) == 'i' && L.n(1) == 1 && L.par.size() == 1 && L.par[0] >= 0 &&
+       static_cast<std::size_t>(L.par[0]) < L.n(0));
+  switch (L.n(0) * 10 + static_cast<std::size_t>(L.par[0]))
+  {
+  case 10:
+    return do_recset<T, la0, la0>(L);
+  case 20:
+    return do_recset<T, la0, la0, la1>(L);
+  case 21:
+    return do_recset<T, la1, la0, la1>(L);
+  case 30:
+    return do_recset<T, la0, la0, la1, la2>(L);
+  case 31:
+    return do_recset<T, la1, la0, la1, la2>(L);
+  case 32:
+    return do_recset<T, la2, la0, la1, la2>(L);
+  default:
+    throw bad_op{};
+  }
+}
+
 template <typename T>
 bool dispatch(std::string const &_op, line_t const &L, std::string &_out)
 {
   if (_op == "recmap" || _op == "recpermute" || _op == "recmuldisj")
     return (_out = op_record<T>(_op, L), true);
+  if (_op == "recset")
+    return (_out = op_recset<T>(L), true);
   if (_op == "recctor2" || _op == "recinit")
     return (_out = op_record_more<T>(_op, L), true);
   return false;
